@@ -347,8 +347,15 @@ func attrsOf(f *File, what string, get func() ([]*core.Attribute, error)) (out [
 				v, err := a.ReadValue()
 				if err != nil {
 					o.ValueErr = errStr(err)
+					// a caller that asks once more after an error gets an error or the value, as the first time
+					if v2, err2 := a.ReadValue(); err2 == nil {
+						o.Value, o.ValueErr = Render(v2), ""
+					}
 				} else {
 					o.Value = Render(v)
+					if v2, err2 := a.ReadValue(); err2 != nil || Render(v2) != o.Value {
+						o.ValueErr = fmt.Sprintf("MISMATCH: second ReadValue gives %v / %v, the first gave %s", v2, err2, o.Value)
+					}
 				}
 			})
 			out = append(out, o)
